@@ -423,6 +423,11 @@ func init() {
 			case 0:
 				cf, _, res := frostKeygen(c, ids, t, false, sid)
 				if len(cf) == n {
+					if len(signers) < n && c.Intn(2) == 0 {
+						frostSign(c, cf, nil, ids, msgOfLen(c), c.Bytes(8), "fresh")
+						frostSign(c, cf, nil, signers, msg, sid, "reused-after-full-set")
+						continue
+					}
 					frostSign(c, cf, nil, signers, msg, sid, "fresh")
 				} else {
 					emitKeygen(c, "frost", ids, t, nil, res, nil)
@@ -452,6 +457,13 @@ func init() {
 				// GenerateConfig uses its own ids
 				gids := test.PartyIDs(n)
 				gs := subset(c, gids, len(signers))
+				if len(gs) < n && i%5 == 3 {
+					// the same in-memory key material used twice: first by ALL parties, then by the proper subset
+					// (anything a session caches on the config must not leak into the next one)
+					cmpSign(c, cfgs, gids, msgOfLen(c), c.Bytes(8), "generated", false)
+					cmpSign(c, cfgs, gs, msg, sid, "reused-after-full-set", false)
+					continue
+				}
 				cmpSign(c, cfgs, gs, msg, sid, "generated", i%5 == 4)
 			}
 		}
